@@ -61,6 +61,55 @@ func runC20(r *Run) {
 	c20Shared(r)
 	c20WaitCancel(r)
 	c20GiveBackCancel(r)
+	c20ShortWrites(r)
+}
+
+// A PacketConn that reports short counts without an error: the datagram has left (truncated), so it counts
+// against the budget like any other; replies, errors and queries alike.
+func c20ShortWrites(r *Run) {
+	for i := 0; i < r.n(6, 60); i++ {
+		x := c20Rate{1, 3600}
+		burst := 1 + r.rng.Intn(3)
+		t0 := time.Now()
+		lim := rate.NewLimiter(x.limit(), burst)
+		conn := newFakeConn(nil)
+		conn.shortWrites.Store(true)
+		cfg := baseConfig(conn)
+		cfg.SendLimiter = lim
+		cfg.WaitToReply = false
+		s, err := dht.NewServer(cfg)
+		if err != nil {
+			r.violation("NewServer failed: "+err.Error(), nil)
+			return
+		}
+		n := 10 + r.rng.Intn(20)
+		for j := 0; j < n; j++ {
+			var id, target [20]byte
+			r.rng.Read(id[:])
+			r.rng.Read(target[:])
+			b, _ := c20Query([]string{"ping", "find_node", "unknown", "noargs_get"}[r.rng.Intn(4)], fmt.Sprintf("s%d", j), id[:], target[:])
+			conn.inject(b, &net.UDPAddr{IP: net.IP{10, 9, byte(i), byte(j + 1)}, Port: 4000 + j})
+		}
+		ctx, cancel := context.WithTimeout(context.Background(), 30*time.Millisecond)
+		for j := 0; j < 3; j++ {
+			s.Query(ctx, dht.NewAddr(&net.UDPAddr{IP: net.IP{10, 8, byte(i), byte(j + 1)}, Port: 5000 + j}), "ping", dht.QueryInput{NumTries: 1, RateLimiting: dht.QueryRateLimiting{NoWaitFirst: true}})
+		}
+		cancel()
+		conn.waitIdle(2 * time.Second)
+		time.Sleep(2 * time.Millisecond)
+		s.Close()
+		ws := conn.writes()
+		for k, w := range ws {
+			if !c20Within(x, burst, k+1, w.At.Sub(t0).Nanoseconds()) {
+				r.violation(fmt.Sprintf("rated datagrams exceed burst + rate*t: %d datagrams left through a socket that reports short writes, budget %d (rate 1/h)", len(ws), burst),
+					map[string]interface{}{"inbound_queries": n, "burst": burst, "written": len(ws)})
+				break
+			}
+		}
+		r.hist(fmt.Sprintf("short-writes/burst=%d/written=%d", burst, len(ws)))
+		r.count(fmt.Sprintf("short-writes/%d", i), true)
+		r.Result.TracesValidated++
+	}
 }
 
 // ---- policy table (emitted so the diff also covers the driver's parsing) ----
